@@ -788,6 +788,24 @@ func main() {
 		}
 		r.reallyClose()
 	}
+	if *onlyKind == "" || *onlyKind == "b" {
+		h := func(ia, in, eg int) segpool.Hop { return segpool.Hop{IA: ia, In: in, Eg: eg} }
+		pool := segpool.NewPool([]segpool.Desc{
+			{TS: 0, SV: 3, TTL: 2, Hops: []segpool.Hop{h(11, 0, 1), h(12, 2, 3)}, Peers: [][2]int{{1, 5}}, PeerIA: 14, Next: 13},
+			{TS: 0, SV: 3, TTL: 2, Hops: []segpool.Hop{h(11, 0, 1), h(14, 5, 1), h(12, 2, 3)}, Peers: [][2]int{}, Next: 13},
+		})
+		r := &runner{w: w, kind: "b", pool: pool}
+		ntr++
+		r.open(ntr, "directed")
+		for _, s := range []step{
+			{"op": "bins", "p": 1, "inIf": 1, "usage": []int{1, 8}},
+			{"op": "bins", "p": 2, "inIf": 2, "usage": []int{2}},
+			{"op": "bget", "all": 1},
+		} {
+			r.exec(s)
+		}
+		r.reallyClose()
+	}
 
 	// 2. seeded random histories on the built-in pools
 	for ki, kind := range []string{"p", "b"} {
